@@ -94,6 +94,8 @@ func init() {
 				return ctl(0x1210, b)
 			}()}, false},
 			{"unknown-command", [][]byte{ctl(0x0002, nil)}, false},
+			{"1211-as-first-frame", [][]byte{ctl(0x1211, body1211([]byte("a"), 0, 3))}, false},
+			{"1212-as-first-frame", [][]byte{ctl(0x1212, body1211([]byte("a"), 0, 3))}, false},
 			{"reset-mid-file", [][]byte{ctl(0x1210, body1210("JS", r, []aFile{{[]byte("m"), randBytes(r, 50)}})), chunkBytes("JS", []byte("m"), 0, randBytes(r, 50))[:80]}, true},
 			{"name-with-dotdot", [][]byte{ctl(0x1210, body1210("JS", r, []aFile{{[]byte("../../escape"), []byte{1}}})), ctl(0x1211, body1211([]byte("../../escape"), 0, 1)), chunkBytes("JS", []byte("../../escape"), 0, []byte{7}), ctl(0x1212, body1211([]byte("../../escape"), 0, 1))}, false},
 		}
